@@ -108,6 +108,21 @@ func c13Edges(c *ctx, t maptile.Tile) {
 	e := map[string]interface{}{"k": "edges", "tile": t3(t), "nt": 1, "haseast": 0, "hassouth": 0, "east": [4]int{}, "south": [4]int{}}
 	setCurrent("maptile.Bound", t3(t))
 	site := guard(func() {
+		// history: bounds with a tile buffer were asked for first (of this tile and of one in another row) - what Bound()
+		// returns afterwards must not depend on that. For an interior tile a buffer of one tile reaches exactly to the
+		// far edges of its four neighbours.
+		e["buf1"] = 1
+		if mx := uint32(1) << uint32(t.Z); t.Z >= 2 && t.X >= 1 && t.Y >= 1 && t.X < mx-1 && t.Y < mx-1 {
+			maptile.New(t.X, t.Y-1, t.Z).Bound(0.5)
+			b1 := t.Bound(1)
+			w, ea := maptile.New(t.X-1, t.Y, t.Z).Bound(), maptile.New(t.X+1, t.Y, t.Z).Bound()
+			no, so := maptile.New(t.X, t.Y-1, t.Z).Bound(), maptile.New(t.X, t.Y+1, t.Z).Bound()
+			if b1.Min[0] != w.Min[0] || b1.Max[0] != ea.Max[0] || b1.Max[1] != no.Max[1] || b1.Min[1] != so.Min[1] {
+				e["buf1"] = 0
+			}
+		} else {
+			t.Bound(0.75)
+		}
 		e["t"] = edges(t)
 		max := uint32(1) << uint32(t.Z)
 		if t.X+1 < max {
